@@ -1,6 +1,6 @@
 """C07 -- documented harmless changes are filtered by default and shown with --harmless."""
 import os
-import vf, campaign, report
+import vf, campaign, report, difftree
 from checks.C05 import names
 
 
@@ -26,15 +26,22 @@ def main():
         r = vf.run([abidiff, "--no-default-suppression", a, b], env=vf.henv(d))
         h = vf.run([abidiff, "--no-default-suppression", "--harmless", a, b], env=vf.henv(d))
         rep = report.parse(h.out)
-        return ("ok", {"e": "Harmless", "case": idx, "comp": comp, "kinds": [m["kind"] for m in case["muts"]], "affected": affected, "exit": r.exit,
+        # hook H3: the forest behind both runs; the catalogue entry must show up as a harmless *local* category (Catalogue!CategoryOfKind)
+        trees = [difftree.tree_event(abidiff, a, b, o, vf.henv(d), idx, base=bs, extra={"comp": comp, "mutKind": case["muts"][0]["kind"]}) for o, bs in (([], r), (["--harmless"], h))]
+        return ("ok", {"trees": [t for t in trees if t is not None], "e": "Harmless", "case": idx, "comp": comp, "kinds": [m["kind"] for m in case["muts"]], "affected": affected, "exit": r.exit,
                        "hexit": h.exit, "hnamed": names(rep, "changed_fns", "changed_vars"), "ret": campaign.retof(r, h), "out": r.out[:300], "hout": h.out[:300]})
 
     res = vf.pmap(one, [(i, cs, comp) for i, cs in enumerate(cases) for comp in comps])
-    events = []
+    events, trees = [], []
     for r in res:
         if r[0] == "discard":
             c.discard(r[1])
         else:
+            for st, x in r[1].pop("trees"):
+                if st == "ok":
+                    trees.append(x)
+                else:
+                    c.discard(x)
             events.append(r[1])
     c.cov["evaluations"] = len(events)
     c.cov["distinct_nontrivial"] = len({e["case"] for e in events})
@@ -45,6 +52,10 @@ def main():
         c.sample(e)
     case_of = lambda ev: campaign.case_files(os.path.join(c.workdir, "p%d" % ev["case"]))
     vf.pmap(lambda i: c.validate("AbiTrace.tla", "AbiTrace.cfg", events[i:i + 3000], case_of=case_of), range(0, len(events), 3000), jobs=4)
+    c.model("DiffTree.tla", "DiffTree.cfg")
+    vf.pmap(lambda i: c.validate("DiffTreeTrace.tla", "DiffTreeTrace.cfg", trees[i:i + 400], case_of=case_of), range(0, len(trees), 400), jobs=6)
+    c.cov["diff_forests_validated"] = len(trees)
+    c.cov["evaluations"] += len(trees)
     c.finish()
 
 
